@@ -16,6 +16,7 @@ import (
 	"strconv"
 	"strings"
 	"sync"
+	"sync/atomic"
 	"time"
 
 	"github.com/evanw/esbuild/pkg/api"
@@ -38,6 +39,12 @@ type hev struct {
 	B    int
 	Ver  int
 	Canc bool
+	// Stamp orders all events of one context: taken from one atomic counter at
+	// the moment the event happens (call: before entering the API; return:
+	// after it returned; callbacks: inside the callback), so sorting by it is a
+	// linearisation consistent with real time even for events that are logged
+	// without the recorder mutex (burst clients)
+	Stamp int64
 }
 
 // plugin callback trace event (per context, attributed to a build)
@@ -53,6 +60,7 @@ type pev struct {
 
 type ctxRec struct {
 	mu          sync.Mutex
+	clock       int64 // atomic: event stamps
 	hist        []hev
 	ptrace      []pev
 	ncalls      int
@@ -90,6 +98,12 @@ type ctxRec struct {
 	dir        string   // directory of the real files
 	startMinUS int      // on-start callbacks last at least this long
 	fsMarks    []string // markers of the real files that a successful build must contain exactly once
+}
+
+// app appends an event with the next stamp (call with mu held)
+func (c *ctxRec) app(ev hev) []hev {
+	ev.Stamp = atomic.AddInt64(&c.clock, 1)
+	return append(c.hist, ev)
 }
 
 func (c *ctxRec) curBuild() int { // call with mu held
@@ -160,7 +174,7 @@ func (c *ctxRec) plugins() []api.Plugin {
 				if c.startEnds != c.startBegins-1 {
 					c.failf("build %d starts while on-start callbacks of the previous build are still running", b)
 				}
-				c.hist = append(c.hist, hev{Kind: "start", B: b})
+				c.hist = c.app(hev{Kind: "start", B: b})
 			}
 			c.ptrace = append(c.ptrace, pev{B: b, Kind: "sb", I: i})
 			fail := c.rng.Intn(100) < c.failStartPct
@@ -202,7 +216,7 @@ func (c *ctxRec) plugins() []api.Plugin {
 			}
 			c.mu.Lock()
 			if c.endBegins[b] == 0 {
-				c.hist = append(c.hist, hev{Kind: "end", B: b, Canc: canc})
+				c.hist = c.app(hev{Kind: "end", B: b, Canc: canc})
 				c.ended[b] = canc
 			}
 			c.endBegins[b]++
@@ -255,7 +269,7 @@ func (c *ctxRec) plugins() []api.Plugin {
 			ver := c.version
 			if _, ok := c.firstLoad[b]; !ok {
 				c.firstLoad[b] = ver
-				c.hist = append(c.hist, hev{Kind: "load", B: b, Ver: ver})
+				c.hist = c.app(hev{Kind: "load", B: b, Ver: ver})
 			}
 			key := fmt.Sprintf("%d/%s", b, id)
 			if _, dup := c.loadVer[key]; dup {
@@ -479,7 +493,7 @@ func (c *ctxRec) logCall(op string) int {
 	defer c.mu.Unlock()
 	id := c.ncalls
 	c.ncalls++
-	c.hist = append(c.hist, hev{Kind: "call", C: id, Op: op})
+	c.hist = c.app(hev{Kind: "call", C: id, Op: op})
 	return id
 }
 
@@ -487,7 +501,7 @@ func (c *ctxRec) edit() {
 	c.mu.Lock()
 	c.version++
 	v := c.version
-	c.hist = append(c.hist, hev{Kind: "edit"})
+	c.hist = c.app(hev{Kind: "edit"})
 	c.mu.Unlock()
 	if c.trigger != "" {
 		os.WriteFile(c.trigger, []byte(strings.Repeat("x", v%97+1)), 0o644)
@@ -624,7 +638,7 @@ func (c *ctxRec) doCall(ctx api.BuildContext, op string, timeout time.Duration) 
 			}
 		}
 		c.mu.Lock()
-		c.hist = append(c.hist, hev{Kind: "ret", C: id, Op: op, Rv: out.rv})
+		c.hist = c.app(hev{Kind: "ret", C: id, Op: op, Rv: out.rv})
 		c.mu.Unlock()
 		out.returned = true
 		done <- out
